@@ -338,6 +338,39 @@ func (p *Prog) verifyFunc(fn *ssa.Function, ct *Contract) (fx *Fx, err error) {
 		return fx, nil
 	}
 	var fin *State
+	if os.Getenv("GVC_DEBUG_NAMES") != "" {
+		fmt.Fprintf(os.Stderr, "[returns %s] %d split=%v\n", fnName(fn), len(fx.Returns), ct.SplitReturns)
+	}
+	if ct.SplitReturns && len(fx.Returns) > 12 {
+		// many paths reach the same return statements: merge the states per return statement (block), in order of
+		// discovery, so that there is still one set of exit obligations per statement
+		var order []*ssa.BasicBlock
+		groups := map[*ssa.BasicBlock][]*retState{}
+		for _, r := range fx.Returns {
+			if _, ok := groups[r.Blk]; !ok {
+				order = append(order, r.Blk)
+			}
+			groups[r.Blk] = append(groups[r.Blk], r)
+		}
+		var merged []*retState
+		for _, b := range order {
+			g := groups[b]
+			if len(g) == 1 {
+				merged = append(merged, g[0])
+				continue
+			}
+			var sts []*State
+			for _, r := range g {
+				r.St.Top().Vals[resKey] = r.Res
+				sts = append(sts, r.St)
+			}
+			m := mergeStates(sts, nil)
+			res := m.Top().Vals[resKey]
+			delete(m.Top().Vals, resKey)
+			merged = append(merged, &retState{St: m, Res: res, Pos: g[0].Pos, Blk: b})
+		}
+		fx.Returns = merged
+	}
 	if ct.SplitReturns && len(fx.Returns) > 1 && len(fx.Returns) <= 12 {
 		// one set of exit obligations per return statement (no merged ite terms); ordinal = order of discovery
 		rets := fx.Returns
